@@ -64,6 +64,39 @@ def do_replay(path):
     print(f"VIOLATION property={body['property']} replay={path}")
     return 1
 
+def cross_check(xdir, limit=120):
+    """re-decide a sample of the exported queries with /usr/bin/z3 (4.8.12) and cvc5; any disagreement with the
+    verdict used by the check, or an (error line, makes the run inconclusive"""
+    import glob, random, subprocess
+    files = sorted(glob.glob(os.path.join(xdir, "*.smt2")))
+    random.Random(0).shuffle(files)
+    files = files[:limit]
+    res = {"exported": len(files), "agree": 0, "disagree": 0, "undecided": 0, "errors": 0, "examples": [],
+           "solvers": ["/usr/bin/z3 4.8.12 -T:30", "cvc5 --tlimit=30000"]}
+    def run(cmd):
+        try:
+            p = subprocess.run(cmd, capture_output=True, text=True, timeout=45)
+            out = (p.stdout + p.stderr).strip()
+            if "(error" in out: return "error"
+            first = out.splitlines()[0].strip() if out else "unknown"
+            return first if first in ("sat", "unsat") else "unknown"
+        except subprocess.TimeoutExpired:
+            return "unknown"
+    from concurrent.futures import ThreadPoolExecutor
+    jobs = []
+    with ThreadPoolExecutor(8) as ex:
+        for f in files:
+            want = f.rsplit("_", 1)[1].split(".")[0]
+            jobs.append((f, want, ex.submit(run, ["/usr/bin/z3", "-T:30", f]), ex.submit(run, ["cvc5", "--tlimit=30000", f])))
+        for f, want, a, b in jobs:
+            for r in (a.result(), b.result()):
+                if r == want: res["agree"] += 1
+                elif r == "unknown": res["undecided"] += 1
+                elif r == "error": res["errors"] += 1
+                else:
+                    res["disagree"] += 1; res["examples"].append([os.path.basename(f), want, r])
+    return res
+
 def main(argv=None):
     ap = argparse.ArgumentParser()
     ap.add_argument("prop", nargs="?")
@@ -89,6 +122,12 @@ def main(argv=None):
             numba_cache = tempfile.mkdtemp(prefix="vf_numba_shared_")
             os.environ["VF_NUMBA_SHARED_CACHE"] = numba_cache
             atexit.register(lambda: shutil.rmtree(numba_cache, ignore_errors=True))
+    xdir = None
+    if a.tier == "thorough" and not a.only:
+        import tempfile, atexit, shutil
+        xdir = tempfile.mkdtemp(prefix="vf_xcheck_")
+        os.environ["VF_XCHECK_DIR"] = xdir
+        atexit.register(lambda: shutil.rmtree(xdir, ignore_errors=True))
     mod = importlib.import_module("vf.harness." + prop.lower())
     hs = [h for h in mod.harnesses(a.tier) if a.only in h.name]
     if len({h.name for h in hs}) != len(hs):
@@ -215,6 +254,9 @@ def main(argv=None):
         x = rec["res"]
         path = write_replay(prop, rec["h"], x["cex"], x.get("cex_real_failing") or x.get("cex_failing"), x.get("cex_real_out"))
         vio_lines.append((path, hn, s, x))
+    xres = cross_check(xdir) if xdir else None
+    if xres and xres["disagree"]:
+        inconclusive.append(f"cross-solver disagreement on {xres['disagree']} exported query(ies): {xres['examples'][:2]}")
     wall = time.time() - t0
     ev = {"property_id": prop, "tier": a.tier, "seed": seed, "level": "model_checking",
           "coverage": {"states": tot["paths"], "transitions": tot["decisions"],
@@ -227,7 +269,7 @@ def main(argv=None):
                        "known_region_hits": tot["known_hits"], "unknown": tot["unknown"], "queries": tot["queries"],
                        "solver_s": round(tot["solver_s"], 2), "witnesses_replayed": tot["witnesses"],
                        "witnesses_not_comparable_uninterpreted_reducer": tot.get("witnesses_unvalidated", 0),
-                       "functions_encoded": funcs, "harnesses": per_h,
+                       "functions_encoded": funcs, "harnesses": per_h, "cross_solver": xres,
                        "exhaustive": not inconclusive and not model_errors,
                        "source_sha256": env.source_hashes(),
                        "solver": "z3 " + __import__("z3").get_version_string() +
